@@ -129,7 +129,7 @@ def run(ctx):
     if rx:
         ent = rx.call_sites('index::IndexTable::entries', 'ref_count::RefCountTable::entries')
         ctx.ob('4c page-read-anchor', 'anchor', rx.path, 'reindex reads whole pages of the source table (index and ref-count branch)', len(ent) == 2, str(ent))
-        TRUNC = re.compile(r'Iterator::(take|skip|step_by|take_while|skip_while|nth|last|rev|filter|filter_map|find|position|chain|zip|peekable|scan|map_while)$|::(take|skip|step_by|take_while|skip_while)$')
+        TRUNC = re.compile(r'::(take|skip|step_by|take_while|skip_while|nth|nth_back|map_while|zip|advance_by)$')   # positional truncation; filter() on emptiness is legitimate
         bad = []
         for bi, t in rx.calls():
             nm = t.get('r') or t.get('f') or ''
